@@ -206,10 +206,13 @@ class DumpExec:
             return [(p, env)]
         if isinstance(st, ast.If):
             g = subst(st.test, env)
+            pos = True
+            while isinstance(g, ast.UnaryOp) and isinstance(g.op, ast.Not):
+                g, pos = g.operand, not pos
             pt = p.clone()
-            pt.guards.append((g, True))
+            pt.guards.append((g, pos))
             pf = p.clone()
-            pf.guards.append((g, False))
+            pf.guards.append((g, not pos))
             out = self.block(st.body, [(pt, env)], func, depth)
             out += self.block(st.orelse, [(pf, env)], func, depth) if st.orelse else [(pf, env)]
             return out
